@@ -1941,3 +1941,99 @@ def rf179(run):
                 run.violation(rule, g, 'stale %s' % var, '%s reads `%s` (line %d) on a path from the start of the loop iteration that does not assign '
                               'it: %s' % (fn, var, r['l'], why), line=r['l'])
     return n
+
+
+# ---------------------------------------------------------------------------------------------
+# RF197: a scale becomes a shift count through its logarithm
+# RF198: reload registers of an instruction are reserved after the counters are reset
+# ---------------------------------------------------------------------------------------------
+
+def rf197(run):
+    rule = 'RF197'
+    run.rule(rule, 'generator and mir.c: where an index is scaled by a shift instruction (`MIR_new_insn (ctx, MIR_LSH[S], …, MIR_new_int_op (ctx, '
+                   'E))` with E derived from a `scale` field or a local initialised from one), E goes through the integer logarithm '
+                   '(gen_int_log2 / int_log2).  `lsh t, t, scale` multiplies by 2^scale: the store of `(b, i, 8)` lands at b + (i << 8)')
+    n = tot = 0
+    for u in ('gen', 'mir'):
+        tu = run.tu(u)
+        for g in tu.func_list:
+            if g.body is None or not g.file.startswith('/repo') or (u != 'mir' and g.file.endswith('/mir.c')):
+                continue
+            scale_locals = set()
+            for x in g.walk():
+                if x['k'] == 'DeclStmt':
+                    for d in x.get('decls', []):
+                        if d.get('init') is not None and '.scale' in F.src(d['init']).replace('->', '.') and 'log2' not in F.src(d['init']):
+                            scale_locals.add(d['n'])
+                if x['k'] == 'BinaryOperator' and x['op'] == '=' and F.strip(x['c'][0])['k'] == 'DeclRefExpr' and \
+                        '.scale' in F.src(x['c'][1]).replace('->', '.') and 'log2' not in F.src(x['c'][1]):
+                    scale_locals.add(F.strip(x['c'][0])['n'])
+            for x in g.walk():
+                if x['k'] != 'CallExpr' or x.get('callee') != 'MIR_new_insn':
+                    continue
+                a = F.call_args(x)
+                if len(a) < 5 or F.src(F.strip(a[1])) not in ('MIR_LSH', 'MIR_LSHS'):
+                    continue
+                cnt = F.strip(a[4])
+                if not (cnt['k'] == 'CallExpr' and cnt.get('callee') in ('MIR_new_int_op', 'MIR_new_uint_op')):
+                    continue
+                e = F.call_args(cnt)[1]
+                es = F.src(e).replace('->', '.')
+                uses_scale = '.scale' in es or any(y['k'] == 'DeclRefExpr' and y['n'] in scale_locals for y in F.walk(e))
+                if not uses_scale:
+                    continue
+                tot += 1
+                ok = 'log2' in es
+                run.functions_analysed.add((u, g.name))
+                run.ob(rule, (u, g.name, x['l']), ok, {'site': '%s:%d %s' % (g.relfile(), x['l'], g.name), 'shift count': F.src(e)[:50]})
+                if not ok:
+                    n += 1
+                    run.violation(rule, g, 'shift by the scale itself', '%s scales an index with `lsh …, %s` (line %d): the count is the scale, not its '
+                                  'logarithm — the address is base + (index << scale)' % (g.name, F.src(e)[:40], x['l']), line=x['l'])
+    run.control(rule, 'index scaling by a shift found', tot >= 1)
+    return tot
+
+
+def rf198(run):
+    rule = 'RF198'
+    run.rule(rule, 'register allocator, rewrite_insn: the temporary hard registers for the reloads of one instruction are handed out by '
+                   'get_reload_hreg, which counts them in in_reloads_num / out_reloads_num.  The reset of the two counters for the instruction '
+                   'is not reachable after a call that hands out a register (get_reload_hreg itself or a function that calls it, e.g. the '
+                   'address reload): otherwise the reservation of the register that holds the computed address is wiped and the next '
+                   'reload — the stored value — is given the same register')
+    tu = run.tu('gen')
+    f = tu.func('rewrite_insn')
+    cfg = f.cfg
+    run.functions_analysed.add(('gen', f.name))
+    takers = {'get_reload_hreg'}
+    for g in tu.func_list:
+        if g.body is not None and g.name != 'rewrite_insn' and 'get_reload_hreg' in tu.reachable([g.name]):
+            takers.add(g.name)
+    resets = []
+    for x in f.walk():
+        if x['k'] == 'BinaryOperator' and x['op'] == '=' and F.src(F.strip(x['c'][0])).replace(' ', '').endswith('in_reloads_num'):
+            r = F.strip(x['c'][1])
+            if F.const_value(r) == 0:
+                resets.append(x)
+    if not resets:
+        raise F.AnalysisBroken('rewrite_insn: the reset of in_reloads_num was not found')
+    n = 0
+    for rs in resets:
+        rb = cfg.block_of(rs)
+        bad = None
+        for b, B in cfg.blocks.items():
+            for k, el in enumerate(B.elems):
+                for y in F.walk(el):
+                    if y['k'] == 'CallExpr' and y.get('callee') in takers:
+                        if b == rb:
+                            if y['l'] < rs['l']:
+                                bad = y
+                        elif rb in cfg.reachable_from(b):
+                            bad = y
+        n += 1
+        run.ob(rule, (rs['l'],), bad is None, {'reset at line': rs['l'], 'a register is handed out before it': bad is not None})
+        if bad is not None:
+            run.violation(rule, f, 'reload counters reset after a reservation', 'rewrite_insn resets in_reloads_num / out_reloads_num (line %d) on a path '
+                          'behind `%s` (line %d), which reserves a temporary hard register for this instruction: the reservation is '
+                          'forgotten and the register is handed out again' % (rs['l'], F.src(bad)[:40], bad['l']), line=rs['l'])
+    return n
